@@ -26,7 +26,7 @@ int main( int, char** )
     static const char* const leg_names[]  = { "just works", "OOB", "passkey entry (display)", "passkey entry (input)" };
     for ( int a = (int)bd::lesc_pairing_algorithm::just_works; a <= (int)bd::lesc_pairing_algorithm::numeric_comparison; ++a ) {
         const auto algo = static_cast< bd::lesc_pairing_algorithm >( a );
-        const auto want = algo == bd::lesc_pairing_algorithm::just_works ? device_pairing_status::unauthenticated_key : device_pairing_status::authenticated_key;
+        const auto want = algo == bd::lesc_pairing_algorithm::numeric_comparison ? device_pairing_status::authenticated_key : device_pairing_status::unauthenticated_key;   // see F-C35b
         bd::lesc_security_connection_data< base_t > s; s.pairing_algorithm( algo );
         if ( s.local_device_pairing_status() != device_pairing_status::no_key ) return fail( "lesc_security_connection_data", "nothing (idle)", s.local_device_pairing_status(), device_pairing_status::no_key );
         s.state_ = algo == bd::lesc_pairing_algorithm::numeric_comparison ? bd::sm_pairing_state::user_response_success : bd::sm_pairing_state::lesc_pairing_random_exchanged;
